@@ -47,6 +47,16 @@ theorem root_history_independent (H : Hash) (ops1 ops2 : List Op)
     (h : ∀ k, applyMap ops1 k = applyMap ops2 k) : rootHash H (run ops1) = rootHash H (run ops2) := by
   rw [run_determined_by_content ops1 ops2 h]
 
+/-- **Identical across implementations**: any tree that satisfies the structural constraints of the
+Merkle-Patricia definition (`WF`: leaf for a single key, extension for a common prefix, branch with at
+least two children otherwise, values only under the terminator) and stores the same content as the
+Go trie after `ops` *is* that trie, so it has the same root — whatever construction produced it
+(e.g. the Yellow Paper's c(J,0); that this construction yields a `WF` tree is not formalised here, it is
+what the independent root calculator of the harness samples). -/
+theorem root_unique_among_wellformed (H : Hash) (ops : List Op) (s : Node) (hs : WF s)
+    (hcontent : ∀ key, lookup s key = lookup (run ops) key) : rootHash H s = rootHash H (run ops) := by
+  rw [canonical hs (wf_run ops) hcontent]
+
 /-! ### iteration (`leaves` = what `NewIterator(t.NodeIterator(nil))` yields, in that order) -/
 
 /-- Iteration returns exactly the surviving pairs … -/
